@@ -9,10 +9,16 @@
    exact floor of the logarithm quotient (the k >= 0 with 2000^k <= n*(1000+β)^k < ... failing
    at k+1).  Nothing is proved about IEEE rounding: whether the machine's float64 meets the last
    clause is what the harness sweep (`limit` lines of streeheighttrace) tests empirically against
-   [limit_exact]. *)
+   [limit_exact].
+
+   New (second half of the file): the clause "a tree built by New from n keys has the minimum
+   height" on the heap the GENERATED New leaves (Gen/FnStree.v; contracts of slices.SortFunc /
+   slices.CompactFunc and vocabulary: Props/C01_source3.v). *)
 From Coq Require Import ZArith List Lia.
 Import ListNotations.
 From Mds Require Import Common.FnRt GenTie.StreeTieNewLimit.
+From Mds Require Import GenTie.StreeTieBase GenTie.StreeSep GenTie.StreeSource GenTie.StreeTieNew GenTie.StreeSourceNew.
+From Mds Require Import Stree.StreeSpec.
 From Mds Require Gen.FnStreeNew Stree.HeightModel Stree.HeightLimit.
 Local Open Scope Z_scope.
 
@@ -72,3 +78,39 @@ Example C02_limitFunc_is_source_ex :
    | Some f => map f [1; 2; 8; 1000] | None => [] end) = [2; 3; 9; 1001] /\
   FnStreeNew.toFraction s_of_Z s_add s_div 250 = SQ 1250 2000.
 Proof. split; [exact sflt_exact|]. vm_compute. repeat split. Qed.
+
+(* C02, constructor clause, on the generated heap: New(β, cmp, keys...) with at least one key returns
+   an object with 1 <= size <= len(keys) (size = the number of equivalence classes of the keys: the
+   reference list of C01_history_source_new); the cells reachable from its root by left/right
+   fields are exactly a tree-shaped region of size cells, every one lies at depth
+   d <= floor(log2 size), and one lies at exactly that depth: the height is floor(log2 size), the
+   minimum for that many nodes.  For pairwise inequivalent keys size = n (C01_history_source_new:
+   size = length of the sorted de-duplication). *)
+Theorem C02_new_height_source : forall (T : Type) (cmp : T -> T -> Z), total_preorder cmp ->
+  forall (limitFunc : Z -> Z -> Z)
+    (srt : list (option nat) -> (unit -> option nat -> option nat -> res (Z * unit)) -> res (list (option nat)))
+    (cpt : list (option nat) -> (unit -> option nat -> option nat -> res (bool * unit)) -> res (list (option nat))),
+  @sort_contract T srt -> compact_contract cpt ->
+  forall (b : Z) (keys : list T) (h0 : list (G.node T)), 0 <= b <= 1000 -> keys <> [] ->
+  exists (tr : G.Tree T) (h : list (G.node T)),
+    gnew cmp limitFunc srt cpt b keys h0 = Ok (tr, h) /\ 1 <= G.Tree_size tr <= Z.of_nat (length keys) /\
+    (exists t F, trepr h (G.Tree_root tr) t F /\ Z.of_nat (length F) = G.Tree_size tr /\
+       (forall x, In x F <-> exists d, hreach h (G.Tree_root tr) x d)) /\
+    (forall x d, hreach h (G.Tree_root tr) x d -> Z.of_nat d <= Z.log2 (G.Tree_size tr)) /\
+    (exists x, hreach h (G.Tree_root tr) x (Z.to_nat (Z.log2 (G.Tree_size tr)))).
+Proof. exact @new_height_source. Qed.
+Print Assumptions C02_new_height_source.
+
+(* seven keys, two of them duplicates by key: five cells, height floor(log2 5) = 2; the cell of key
+   3 (address 2) lies two steps below the root *)
+Definition s3h_cmp (a b : Z * Z) : Z := fst a - fst b.
+Definition s3h_keys : list (Z * Z) := [(5,0); (3,1); (8,2); (3,3); (1,4); (5,5); (9,6)].
+Example C02_new_height_source_ex :
+  match gnew s3h_cmp HeightModel.limit_exact sort_cb compact_cb 250 s3h_keys [] with
+  | Ok (tr, h) => G.Tree_size tr = 5 /\ Z.log2 5 = 2 /\ hreach h (G.Tree_root tr) 1%nat 2
+  | _ => False
+  end.
+Proof.
+  vm_compute. split; [reflexivity|]. split; [reflexivity|].
+  eapply hreach_left; [reflexivity|]. eapply hreach_right; [reflexivity|]. eapply hreach_here. reflexivity.
+Qed.
